@@ -39,9 +39,10 @@ var canonParams bool
 // call of it, its parameters stand for the caller's argument expressions.
 var inlineEnv []map[*ssa.Parameter]string
 
-// accessor: fn is a straight-line function without effects (one block, no store, no defer/go/send/
-// map update/panic, calls allowed) — the kind of helper a refactoring extracts to name an
-// expression. Returns its return instruction.
+// accessor: fn is a straight-line function (one block, no defer/go/send/map update/panic; stores and
+// calls allowed) — the kind of helper a refactoring extracts to name an expression or to build an
+// object. Rendering a call of it as the expression it returns only names the value; what the helper
+// stores is accounted for by the rules that collect stores (deepInstrs). Returns its return instruction.
 func accessor(fn *ssa.Function) *ssa.Return {
 	if fn == nil || len(fn.Blocks) != 1 || fn.Recover != nil {
 		return nil
@@ -49,7 +50,7 @@ func accessor(fn *ssa.Function) *ssa.Return {
 	var ret *ssa.Return
 	for _, in := range fn.Blocks[0].Instrs {
 		switch x := in.(type) {
-		case *ssa.Store, *ssa.MapUpdate, *ssa.Send, *ssa.Go, *ssa.Defer, *ssa.Panic, *ssa.RunDefers:
+		case *ssa.MapUpdate, *ssa.Send, *ssa.Go, *ssa.Defer, *ssa.Panic, *ssa.RunDefers:
 			return nil
 		case *ssa.Return:
 			ret = x
@@ -692,7 +693,7 @@ func ErrorForwarding(w *World) *report.RuleResult {
 	want := map[string]string{
 		"internal/php5.Parser.Error":  "pkg/errors.NewError(msg, p.currentToken.Position)",
 		"internal/php7.Parser.Error":  "pkg/errors.NewError(msg, p.currentToken.Position)",
-		"internal/scanner.Lexer.error": "pkg/errors.NewError(msg, pkg/position.NewPosition(internal/scanner.NewLines.GetLine(&lex.newLines, lex.ts), internal/scanner.NewLines.GetLine(&lex.newLines, (lex.te-1)), lex.ts, lex.te))",
+		"internal/scanner.Lexer.error": "pkg/errors.NewError(msg, Position{StartLine: internal/scanner.NewLines.GetLine(&lex.newLines, lex.ts), EndLine: internal/scanner.NewLines.GetLine(&lex.newLines, (lex.te-1)), StartPos: lex.ts, EndPos: lex.te})",
 	}
 	seen := map[string]bool{}
 	for _, c := range w.callbackCalls() {
@@ -711,7 +712,7 @@ func ErrorForwarding(w *World) *report.RuleResult {
 			res.Unknown(key, w.InstrPos(c.in), name, "undecided: unexpected arity")
 			continue
 		}
-		got := Expr(args[0])
+		got := canonReport(args[0])
 		if exp, ok := want[name]; ok {
 			if got == exp {
 				res.OK(key, w.InstrPos(c.in), name, "forwards "+got)
@@ -941,4 +942,136 @@ func effectFree(fn *ssa.Function) bool {
 		effectFreeMemo[fn] = 3
 	}
 	return ok
+}
+
+
+// deepInstrs visits the instructions of fn and, in the context of each call, those of the unexported
+// straight-line-or-not functions of the same package it calls statically (depth-limited). While a
+// callee is visited, Expr renders its parameters as the caller's argument expressions.
+func deepInstrs(fn *ssa.Function, visit func(in ssa.Instruction)) {
+	var walk func(f *ssa.Function, depth int)
+	walk = func(f *ssa.Function, depth int) {
+		for _, b := range f.Blocks {
+			for _, in := range b.Instrs {
+				visit(in)
+				c, ok := in.(*ssa.Call)
+				if !ok || depth >= 3 {
+					continue
+				}
+				callee := c.Common().StaticCallee()
+				if callee == nil || callee.Pkg == nil || callee.Pkg != f.Pkg || len(callee.Blocks) == 0 || token.IsExported(callee.Name()) || callee == f {
+					continue
+				}
+				if len(callee.Params) != len(c.Common().Args) {
+					continue
+				}
+				env := map[*ssa.Parameter]string{}
+				for i, p := range callee.Params {
+					env[p] = Expr(c.Common().Args[i])
+				}
+				inlineEnv = append(inlineEnv, env)
+				walk(callee, depth+1)
+				inlineEnv = inlineEnv[:len(inlineEnv)-1]
+			}
+		}
+	}
+	walk(fn, 0)
+}
+
+
+// canonReport renders the argument of a callback call; a position built by position.NewPosition(a, b,
+// c, d) and one built by field assignments on a fresh Position are rendered alike, as
+// Position{StartLine: a, EndLine: b, StartPos: c, EndPos: d}.
+func canonReport(v ssa.Value) string {
+	c, ok := v.(*ssa.Call)
+	if !ok {
+		return Expr(v)
+	}
+	callee := c.Common().StaticCallee()
+	if callee == nil || calleeName(callee) != "pkg/errors.NewError" || len(c.Common().Args) != 2 {
+		return Expr(v)
+	}
+	return "pkg/errors.NewError(" + Expr(c.Common().Args[0]) + ", " + canonPosition(c.Common().Args[1]) + ")"
+}
+
+func canonPosition(v ssa.Value) string {
+	names := []string{"StartLine", "EndLine", "StartPos", "EndPos"}
+	render := func(vals map[string]string) string {
+		var parts []string
+		for _, n := range names {
+			e, ok := vals[n]
+			if !ok {
+				e = "0"
+			}
+			parts = append(parts, n+": "+e)
+		}
+		return "Position{" + strings.Join(parts, ", ") + "}"
+	}
+	switch x := v.(type) {
+	case *ssa.Call:
+		if callee := x.Common().StaticCallee(); callee != nil && calleeName(callee) == "pkg/position.NewPosition" && len(x.Common().Args) == 4 {
+			// the constructor's parameters are (StartLine, EndLine, StartPos, EndPos): check by its own stores
+			vals := map[string]string{}
+			ok := true
+			ret := accessor(callee)
+			if ret == nil || len(ret.Results) != 1 {
+				ok = false
+			}
+			if ok {
+				if al, isAlloc := ret.Results[0].(*ssa.Alloc); isAlloc {
+					for f, pv := range allocFieldStores(al) {
+						prm, isParam := pv.(*ssa.Parameter)
+						if !isParam {
+							ok = false
+							continue
+						}
+						for i, q := range callee.Params {
+							if q == prm {
+								vals[f] = Expr(x.Common().Args[i])
+							}
+						}
+					}
+				} else {
+					ok = false
+				}
+			}
+			if ok && len(vals) > 0 {
+				return render(vals)
+			}
+		}
+	case *ssa.Alloc:
+		if st := allocFieldStores(x); len(st) > 0 {
+			vals := map[string]string{}
+			for f, sv := range st {
+				vals[f] = Expr(sv)
+			}
+			return render(vals)
+		}
+	}
+	return Expr(v)
+}
+
+// allocFieldStores: field → the single value stored into that field of a local/new struct (nil map if
+// some field is stored twice or the struct is written as a whole).
+func allocFieldStores(a *ssa.Alloc) map[string]ssa.Value {
+	out := map[string]ssa.Value{}
+	for _, r := range *a.Referrers() {
+		switch x := r.(type) {
+		case *ssa.FieldAddr:
+			f := fieldName(a.Type(), x.Field)
+			for _, r2 := range *x.Referrers() {
+				if st, ok := r2.(*ssa.Store); ok && st.Addr == x {
+					if _, dup := out[f]; dup {
+						return nil
+					}
+					out[f] = st.Val
+				}
+			}
+		case *ssa.Store:
+			if x.Addr == a {
+				return nil
+			}
+		}
+	}
+	return out
 }
